@@ -128,3 +128,14 @@ Definition rl_concat {A} (rs : list (rla A)) : rla A :=
 (* weighted reductions L379-400 on integer values *)
 Definition rl_sum (r : rla Z) : Z := zsum (map2 Z.mul (diffs (fst r)) (snd r)).
 Definition dense_decode {A} (r : rla A) : list A := decode A r.
+
+(* any / all / max / mean (runlengtharray.py L379-400): computed on the run values only *)
+Definition rl_any (r : rla bool) : bool := existsb (fun b => b) (snd r).
+Definition rl_all (r : rla bool) : bool := forallb (fun b => b) (snd r).
+Definition rl_max (r : rla Z) : Z := match snd r with [] => 0 | v :: vs => fold_left Z.max vs v end.
+Definition rl_mean (r : rla Z) : Z * Z := (rl_sum r, rl_len r).          (* exact fraction: sum / size *)
+(* np.histogram(rla, bins): histogram of the run values weighted by the run lengths; `bin_of` abstracts numpy's binning *)
+Definition rl_hist (bin_of : Z -> nat) (nbins : nat) (r : rla Z) : list Z :=
+  map (fun b => zsum (map2 (fun l v => if Nat.eqb (bin_of v) b then l else 0) (diffs (fst r)) (snd r))) (seq 0 nbins).
+Definition dense_hist (bin_of : Z -> nat) (nbins : nat) (d : list Z) : list Z :=
+  map (fun b => zsum (map (fun v => if Nat.eqb (bin_of v) b then 1 else 0) d)) (seq 0 nbins).
